@@ -447,6 +447,19 @@ def toStr6 (a : Bytes) (zeroDrop sectionDrop : Bool) (ipv4 : Option Bool) : Str 
 /-- `str(IPAddr6)` -/
 def str6 (a : Bytes) : Str := toStr6 a true true none
 
+/-! ## hashing (`__hash__` = `self._value.__hash__()`, 242-243 / 411-412 / 748-749)
+
+The classes expose no mutating operation: `__setattr__` raises TypeError once `_value` exists, `_value` is an `int` or a
+`bytes` object.  Accordingly the model has values only (a structure around an `Int`, lists of bytes) and functions
+returning new values; there is nothing to model for mutation, and the harness checks that every attempt to assign an
+attribute is refused. -/
+
+/-- CPython's `hash(int)` for `|v| < 2^61 - 1` (every `_value` of an IPAddr is a signed 32-bit int) -/
+def pyHashInt (v : Int) : Int := if v = -1 then -2 else v
+def IP4.hash (x : IP4) : Int := pyHashInt x.value
+/-- `hash(bytes)` is a process-salted function of the bytes: the model takes it as a parameter `H` -/
+def bytesHash (H : Bytes → Int) (a : Bytes) : Int := H a
+
 /-! ## bytes comparison (IPAddr6, EthAddr `_value`) -/
 
 /-- Python `bytes.__lt__`: lexicographic, a proper prefix is smaller -/
@@ -488,6 +501,11 @@ def ethOfText (s : Str) : Except Err Bytes :=
       let parts ← (splitOn ':' s).mapM fun x => (pyInt 16 x).map fmt02x
       ethBytesOfHex parts.flatten
   else .error .runtime
+
+/-- `EthAddr(list / tuple / bytearray)` (134-139): `bytes(addr)` — every element must be in `range(256)` (ValueError
+    otherwise); the length is **not** checked -/
+def ethOfSeq (l : List Int) : Except Err Bytes :=
+  l.mapM fun v => if v < 0 ∨ v > 255 then .error .value else .ok (UInt8.ofNat v.toNat)
 
 /-- `to_str(separator)` (237) -/
 def ethToStr (sep : Char) (b : Bytes) : Str := joinWith sep (b.map fun x => hex2 x.toNat)
